@@ -7,7 +7,7 @@ and on every copy().
 """
 from checks import common
 from checks.cachemodel import Model, on_miss_fn, prefetch_pairs, refuses
-from checks.common import outcome
+from checks.common import outcome as _outcome
 from checks.common.history import Failure, explore
 
 PROP = 'C02'
@@ -21,13 +21,59 @@ RULE = ('seeded random histories (1-80 ops; to 400 thorough) of dict-API operati
         'history and on every copy(); distinct = distinct (class, max_size, recency order) model states '
         'reached that are full (an insert would evict)')
 ASSUMPTIONS = [
-    'keys are short strings (so update(**kw) is reachable), in a quarter of the histories mixed with 1, 1.0, True, 2 and None (equal-but-distinct keys); values small ints',
+    'keys are short strings (so update(**kw) is reachable), in a quarter of the histories mixed with 1, 1.0, True, 2 and None (equal-but-distinct keys), in a tenth instances of a class whose == raises for foreign objects (a dict never shows it one); values small ints',
     'popitem may remove any present pair (the model follows the real choice)',
     'iteration order of the cache is not specified by the property; only the key set is compared',
     'the counters / on_miss of a copy() are not specified and not compared',
     'pop(unhashable, default) is not generated: dict.pop on an empty dict answers without hashing the key',
 ]
 _NO = '<none>'
+ARMED = [False]
+
+
+class StrictKey(object):
+    """A perfectly good dict key (hash and == agree) whose == only understands its own type: a dict compares it
+    only with keys of the same hash, so a cache that is a dict underneath never shows it a foreign object."""
+    __slots__ = ('name',)
+
+    def __init__(self, name):
+        self.name = name
+
+    def __hash__(self):
+        return hash(('strict', self.name))
+
+    def __eq__(self, other):
+        if ARMED[0]:
+            return self.name == other.name          # AttributeError for a foreign object, as such classes do
+        return isinstance(other, StrictKey) and self.name == other.name
+
+    def __ne__(self, other):
+        return not self.__eq__(other)
+
+    def __repr__(self):
+        return 'S(%s)' % self.name
+
+
+STRICT = {}
+
+
+def strict(x):
+    """History decoder for cfg keys='strict': every 'k<i>' string stands for one interned StrictKey."""
+    if isinstance(x, str) and len(x) > 1 and x[0] == 'k' and x[1:].isdigit():
+        if x not in STRICT:
+            STRICT[x] = StrictKey(x)
+        return STRICT[x]
+    if isinstance(x, list):
+        return [strict(y) for y in x]
+    return x
+
+
+def outcome(fn, *a):
+    ARMED[0] = True
+    try:
+        return _outcome(fn, *a)
+    finally:
+        ARMED[0] = False
 
 
 def anchors():
@@ -361,6 +407,8 @@ class Check(object):
                'on_miss': r.choice([False, False, False, True, True, 'prefetch', 'partial'])}
         if r.random() < 0.25:
             cfg['keys'] = 'mixed'
+        elif r.random() < 0.12:
+            cfg['keys'] = 'strict'   # keys of a class whose == only understands its own type
         pool = pool_for(cfg)
         shape = r.choice(['none', 'none', 'dict', 'pairs', 'iter'])
         cfg['values_shape'] = shape
@@ -396,7 +444,8 @@ class Check(object):
                     pairs = [[r.choice(pool), r.randint(0, 9)] for _ in range(r.choice([ms + 63, ms + 64, ms + 65, 200, 400]))]
                 o = [kind, shape, pairs if shape != 'self' else []]
                 if kind == 'update':
-                    o.append([[r.choice([x for x in pool if isinstance(x, str)]), r.randint(0, 9)]] if r.random() < 0.25 else [])
+                    o.append([[r.choice([x for x in pool if isinstance(x, str)]), r.randint(0, 9)]]
+                             if r.random() < 0.25 and cfg.get('keys') != 'strict' else [])
                 ops.append(o)
             else:
                 ops.append([kind])
@@ -405,6 +454,12 @@ class Check(object):
     def run(self, h, stats=None):
         cfg = h['cfg']
         pool = pool_for(cfg)
+        if cfg.get('keys') == 'strict':
+            pool = strict(pool)
+            cfg = dict(cfg, values=strict(cfg.get('values', [])))
+            h = {'cfg': cfg, 'ops': strict(h['ops'])}
+            if stats is not None:
+                stats.count('strict_key_histories')
         run = None
         op = ['<init>']
         i = -1
